@@ -430,11 +430,24 @@ def gen_pl(rng, nsets, nq):
 
 def gen_oct(rng, nsets, nq):
     ops = []
-    for _ in range(nsets):
+    for si in range(nsets):
         kind, a, s = rand_box(rng)
         while kind in ("huge", "tiny"):
             kind, a, s = rand_box(rng)
         per = rng.randint(0, 1)
+        if si == 0 or rng.random() < 0.03:
+            # a single position: the root has no children, the searches start below the root
+            # (finding octree:single-position-search-returns-nothing); first query = the point itself
+            p0 = [a[i] + s[i] * rng.random() for i in range(3)]
+            h0 = min(s) * rng.choice([0.0, 0.2, 1.5])
+            ops.append("oct new %d %s %s" % (per, " ".join(fb(v) for v in a + s), " ".join(fb(v) for v in p0 + [h0])))
+            ops.append("oct ngbs %s" % " ".join(fb(v) for v in p0))
+            ops.append("oct sphere %s %s" % (" ".join(fb(v) for v in p0), fb(min(s) * 0.1)))
+            ops.append("oct closest %s" % " ".join(fb(v) for v in [a[i] + s[i] * rng.random() for i in range(3)]))
+            for _ in range(3):
+                q = [a[i] + s[i] * rng.random() for i in range(3)]
+                ops.append("oct %s %s" % (rng.choice(["ngbs", "closest"]), " ".join(fb(v) for v in q)))
+            continue
         N = rng.choice([2, 3, 10, 100, rng.randint(2, 300)])
         pk, pts = point_set(rng, a, s, N)
         seen, upts = set(), []
@@ -665,7 +678,7 @@ def run(ctx):
     ctx.assumptions += [
         "Voronoi grids are not covered (C15 not applicable); Octree::get_closest_ngb and the periodic Octree distances are tied by the differential run and the brute-force oracle only (modelled, no theorem beyond octree_search_is_bruteforce, whose covering hypotheses are then assumptions)",
         "AMR traversal theorems (amr_path_sum, amr_tau_account, amr_absorbed_cell_contains_end, amr_segments_in_cells) hold for every grid of well-formed trees (depth <= 10, hence every tree reachable by refinements), every medium, every photon and every loop fuel under RayHyp: positive box sides, start in the half-open box, non-zero direction, DBL_MAX above every wall distance, and no leaf spanning the whole box on a periodic axis (such a leaf is its own neighbour: the code spins with ds = 0); NO 2:1 level balance is needed (set_ngbs stores a same-level or coarser neighbour, a coarser one is always a leaf; amr_neighbours_geometric)",
-        "octree_build_search_partial: non-periodic tree, positions in the half-open box, n >= 2 (a one-position Octree searches below a root without children and returns nothing in the C++ as well); brute force over the STORED indices: that every index < n is stored needs the positions to separate within the 64 levels of the model's recursion fuel (the code recurses without bound, equal positions never separate; generators keep positions distinct)",
+        "octree_build_search_partial: non-periodic tree, positions in the half-open box, n >= 2 (a one-position Octree searches below a root without children and returns nothing: finding octree:single-position-search-returns-nothing, generated and flagged by the brute-force oracle; the model mirrors the code); brute force over the STORED indices: that every index < n is stored needs the positions to separate within the 64 levels of the model's recursion fuel (the code recurses without bound, equal positions never separate; generators keep positions distinct)",
         "theorems are about exact arithmetic (Nat/Int for keys and traversals, real numbers for the geometric parts); IEEE rounding is not modelled, the tie is the bit-exact differential run on doubles",
         "AMR keys: depth <= 10 and <= 1024 blocks per axis (the widths of the 32+32 bit key); the C++ shifts `cell << 3*level` overflow int beyond that",
         "max_range_is_last / increase_range_next are for cubic bucket grids (sx = sy = sz), the only ones the PointLocations constructor builds; set_max_range is wrong for some non-cubic sizes (Lean counterexample 5x1x3, anchor (2,0,2))",
